@@ -138,6 +138,7 @@ type mtask struct {
 	schedAt  time.Time // virtual time at which the last Schedule returned
 	epochs   int
 	final    int    // runs started in the final phase (C25)
+	how      string // C25: how the task became inactive ("created-inactive", "deactivated")
 	ranBad   bool   // C25: already reported as running without being an existing active task
 	why      string // C25: why the model does not expect runs ("inactive", "deleted", "never-created")
 	lastKind string // last model event that removed or postponed this task's pending run
@@ -234,9 +235,6 @@ func (w *world) mScheduled(t *mtask, s scheduler.Schedulable, spec string, perio
 	}
 	if t.cur != nil {
 		t.olds = append(t.olds, t.cur)
-		if len(t.olds) > 4 {
-			t.olds = t.olds[len(t.olds)-4:]
-		}
 		t.allow = 1
 		if old := t.cur.due(); old.Before(nx.Add(s.Offset())) {
 			t.lastKind = "reschedule-later"
@@ -255,9 +253,6 @@ func (w *world) mReleased(t *mtask, why string) {
 	if t.cur != nil {
 		t.cur.released = true
 		t.olds = append(t.olds, t.cur)
-		if len(t.olds) > 4 {
-			t.olds = t.olds[len(t.olds)-4:]
-		}
 		t.cur = nil
 		t.lastKind = "release"
 		w.lastRm = "release"
@@ -376,7 +371,7 @@ func (w *world) match(t *mtask, sf, runAt time.Time, seq uint64, now time.Time) 
 		case e.released && w.c25 && t.ranBad:
 		case e.released && w.c25:
 			t.ranBad = true
-			w.violate(t.why+"-task-ran", t.why+"-ran", "%s is %s in the task store, but its run scheduledFor=%s (spec %q) started at %s", who, t.why, ts(sf), e.spec, ts(now))
+			w.violate(t.why+"-task-ran", t.why+"-ran:"+t.how, "%s is %s (%s) in the task store, but its run scheduledFor=%s (spec %q) started at %s", who, t.why, t.how, ts(sf), e.spec, ts(now))
 		case e.released:
 			w.violate("run-after-release", "run-after-release", "%s: run scheduledFor=%s started at %s seq=%d after Release(%d) had returned", who, ts(sf), ts(now), seq, t.id)
 		case t.inCall:
@@ -401,7 +396,7 @@ func (w *world) match(t *mtask, sf, runAt time.Time, seq uint64, now time.Time) 
 				why = "unscheduled"
 			}
 			t.ranBad = true
-			w.violate(why+"-task-ran", why+"-ran", "%s is %s in the task store (the model expects no runs), but its run scheduledFor=%s runAt=%s started at %s", who, why, ts(sf), ts(runAt), ts(now))
+			w.violate(why+"-task-ran", why+"-ran:"+t.how, "%s is %s (%s) in the task store (the model expects no runs), but its run scheduledFor=%s runAt=%s started at %s", who, why, t.how, ts(sf), ts(runAt), ts(now))
 		} else if len(t.olds) > 0 {
 			w.violate("run-after-release", "run-after-release:unexpected-time", "%s: run scheduledFor=%s started at %s seq=%d although the task is released (last expected run was %s)", who, ts(sf), ts(now), seq, ts(t.olds[len(t.olds)-1].next))
 		} else {
@@ -422,15 +417,17 @@ func (w *world) match(t *mtask, sf, runAt time.Time, seq uint64, now time.Time) 
 		w.violate(pre+"duplicate-or-reordered-run", "duplicate", "%s: run scheduledFor=%s started at %s, but the next expected time is %s (spec %q, last=%s): executed twice or out of order", who, ts(sf), ts(now), ts(e.next), e.spec, ts(e.last))
 	case sf.After(e.next):
 		w.violate(pre+"skipped-run", "skipped", "%s: run scheduledFor=%s started at %s, but %s (spec %q, last=%s) has not been executed yet: a due time was skipped", who, ts(sf), ts(now), ts(e.next), e.spec, ts(e.last))
-		// resynchronise so that one skip is one violation
-		for k := 0; k < 1000 && e.next.Before(sf); k++ {
-			nx, err := e.sched.Next(e.next)
+		// resynchronise (one skip is one violation) if the run is a later time of this very schedule
+		nx := e.next
+		for k := 0; k < 1000 && nx.Before(sf); k++ {
+			n2, err := e.sched.Next(nx)
 			if err != nil {
 				break
 			}
-			e.next = nx
+			nx = n2
 		}
-		if fits(e) {
+		if nx.Equal(sf) {
+			e.next = nx
 			accept(e)
 		}
 	default:
@@ -589,7 +586,12 @@ func (w *world) quiescent(where string) {
 			return
 		}
 		w.whenSeen[kind+cause] = true
-		w.violate("when-wrong", "when:"+kind+":after-"+cause, "%s at %s: When()=%s but %s (last removal: %s)", where, ts(now), ts(got), who, cause)
+		sig := "when:" + kind + ":after-" + cause
+		if kind == "nonzero-with-nothing-scheduled" || kind == "earlier-than-earliest-pending" {
+			// one root cause: the time of a removed or postponed earliest run stays in s.when
+			sig = "when-stale:after-" + cause
+		}
+		w.violate("when-wrong", sig, "%s at %s: When()=%s but %s (last removal: %s)", where, ts(now), ts(got), who, cause)
 	}
 }
 
@@ -937,6 +939,7 @@ type memSvc struct {
 	nextCreate            *taskmodel.Task
 	nextSched             func(t *taskmodel.Task)
 	updates               int
+	notified              map[platform.ID]*taskmodel.Task // versions handed out while LatestCompleted was being set (restart)
 }
 
 func cp(t *taskmodel.Task) *taskmodel.Task {
@@ -1009,6 +1012,9 @@ func (s *memSvc) UpdateTask(ctx context.Context, id platform.ID, upd taskmodel.T
 	if upd.Flux != nil && s.nextSched != nil {
 		s.nextSched(t)
 		s.nextSched = nil
+	}
+	if upd.LatestCompleted != nil && s.notified != nil {
+		s.notified[id] = cp(t)
 	}
 	return cp(t), nil
 }
@@ -1160,13 +1166,16 @@ func (w *world) doC25(p op) {
 		sd := setSpec(nt, p)
 		w.svc.nextCreate = nt
 		w.mInvoke(t)
-		_, err := w.mw.CreateTask(ctx, taskmodel.TaskCreate{Status: nt.Status})
+		created, err := w.mw.CreateTask(ctx, taskmodel.TaskCreate{Status: nt.Status})
 		if err != nil {
 			t.inCall = false
 			r.Violate("machinery", "create", "CreateTask: %v", err)
 			return
 		}
-		w.expect(t, w.svc.tasks[pid])
+		if p.In {
+			t.how = "created-inactive"
+		}
+		w.expect(t, created) // the version the coordinator was given
 		if p.In {
 			r.Probe("probe_create_inactive")
 		} else {
@@ -1200,13 +1209,16 @@ func (w *world) doC25(p op) {
 		}
 		was := w.svc.tasks[pid].Status
 		w.mInvoke(t)
-		_, err := w.mw.UpdateTask(ctx, pid, upd)
+		to, err := w.mw.UpdateTask(ctx, pid, upd)
 		if err != nil {
 			t.inCall = false
 			r.Violate("machinery", "update", "UpdateTask: %v", err)
 			return
 		}
-		w.expect(t, w.svc.tasks[pid])
+		if was == string(taskmodel.TaskActive) && to.Status != was {
+			t.how = "deactivated"
+		}
+		w.expect(t, to) // the version the coordinator was given
 		r.Probe("probe_update_" + was + "_to_" + w.svc.tasks[pid].Status)
 		if p.Sp {
 			r.Probe("probe_update_schedule")
@@ -1250,14 +1262,21 @@ func (w *world) doC25(p op) {
 				w.mInvoke(t)
 			}
 		}
+		w.svc.notified = map[platform.ID]*taskmodel.Task{}
 		if err := backend.NotifyCoordinatorOfExisting(ctx, zap.NewNop(), w.svc, w.coord); err != nil {
 			r.Violate("machinery", "notify", "NotifyCoordinatorOfExisting: %v", err)
 		}
 		for _, t := range w.order {
-			if t.slot != sentinelSlot {
+			if t.slot == sentinelSlot {
+				continue
+			}
+			if v := w.svc.notified[platform.ID(t.id)]; v != nil {
+				w.expect(t, v)
+			} else {
 				w.expect(t, w.svc.tasks[platform.ID(t.id)])
 			}
 		}
+		w.svc.notified = nil
 		r.Probe("probe_restart")
 		r.Logf("restart: new scheduler and coordinator, NotifyCoordinatorOfExisting over %d stored tasks at %s", len(w.svc.tasks), ts(time.Now()))
 	case "sleep":
@@ -1283,6 +1302,11 @@ func (w *world) runC25(ops []op) {
 		}
 		w.doC25(p)
 		r.Sim.Progress.Add(1)
+		if p.K != "sleep" && !w.stop() {
+			// let catch-up runs of a schedule that starts in the past finish before the next operation: C25 is
+			// about which tasks are scheduled, the races of operations with runs in flight belong to C24
+			w.sleep(10 * time.Millisecond)
+		}
 	}
 	if !w.stop() {
 		// final phase: past every task's next due time (all C25 periods are <= 1 min, offsets <= 3 s)
